@@ -444,6 +444,15 @@ def execute(trace, ctx=None):
                 if list(got) != exp:
                     raise Violation('drange', '%s..%s = %s..(%d days), expected %s..(%d days)' % (what, op['t2'], got[:3], len(got), exp[:3], len(exp)), k)
                 warmed[target] = True
+                if isinstance(got, list):
+                    # the list now belongs to the caller, who may do with it what it likes; asking again must give the days again
+                    got.reverse()
+                    del got[:max(1, len(got) // 2)]
+                    again = lib(lambda: cal.drange(t, t2, '1b'), what)
+                    if list(again) != exp:
+                        raise Violation('drange', '%s..%s asked a second time (after the caller edited the first answer) = %s..(%d days), expected %d days'
+                                        % (what, op['t2'], list(again)[:3], len(again), len(exp)), k)
+                    res.probe('caller-edits-returned-drange')
             elif q == 'clock':
                 t2 = t + 9 * DAY
                 if not ref.inside(t2):
@@ -530,7 +539,7 @@ def signature(trace, violation):
 
 
 PROBES = ['query-after-reregistration', 'reregistration-over-warm-table', 'holiday-run-across-month-end', 'modified-following-falls-back',
-          'single-step-before-populate', 'query-near-range-edge']
+          'single-step-before-populate', 'query-near-range-edge', 'caller-edits-returned-drange']
 TIERS = {'quick': {'runs': 6000, 'wallcap': 50}, 'thorough': {'runs': 350000, 'wallcap': 800}}
 COMPONENTS = {
     'real': ['pyg_base._drange Calendar (is_bday, is_holiday, adjust, add, bdays, drange, dt_bump, clock, _populate)', 'pyg_base._drange.calendar() and the calendars registry',
